@@ -53,6 +53,11 @@ func (s *recSession) Set(advs ...*bgp.Advertisement) error {
 	if s.closed {
 		s.mgr.misuse = append(s.mgr.misuse, "Set on closed session "+s.name)
 	}
+	if s.mgr.failSets > 0 {
+		// environment fault: the BGP implementation refuses this update (the peer keeps what it had)
+		s.mgr.failSets--
+		return fmt.Errorf("verif: injected Set failure")
+	}
 	s.setN++
 	s.last = advs
 	return nil
@@ -66,6 +71,7 @@ func (s *recSession) Close() error {
 type recMgr struct {
 	sessions []*recSession
 	misuse   []string
+	failSets int // the next failSets Set calls fail
 }
 
 func (m *recMgr) NewSession(l log.Logger, args bgp.SessionParameters) (bgp.Session, error) {
@@ -493,6 +499,9 @@ func (s *spkSys) memoryDump() string {
 
 var spkBurstMode = true
 
+// spkFaultMenu: one refused session update as a bounded fault event (C05)
+var spkFaultMenu = false
+
 func (s *spkSys) retryMark() string {
 	var ks []string
 	for k := range s.errKeys {
@@ -529,6 +538,13 @@ func (s *spkSys) Enabled() []verifrt.Event {
 	}
 	for _, k := range s.svcQ.Keys() {
 		evs = append(evs, verifrt.Event{Kind: "dsvc", S: k})
+	}
+	if spkFaultMenu && s.u.L2 == false {
+		for _, k := range s.svcQ.Keys() {
+			if k != "reload" {
+				evs = append(evs, verifrt.Event{Kind: "dsvc", S: k, B: 1, Fault: true}) // the first session update of this delivery is refused
+			}
+		}
 	}
 	// user events at quiescent states, and one more right after a user event before anything of it was delivered
 	// (two API changes observed together)
@@ -659,6 +675,8 @@ func (s *spkSys) Apply(ev verifrt.Event) {
 		})
 	case "dsvc":
 		s.svcQ.Take(ev.S)
+		s.mgr.failSets = ev.B
+		defer func() { s.mgr.failSets = 0 }()
 		req := ctrl.Request{NamespacedName: types.NamespacedName{Namespace: "metallbreload", Name: "reload"}}
 		if ev.S != "reload" {
 			parts := strings.SplitN(ev.S, "/", 2)
